@@ -4,6 +4,44 @@ _NOTE = ("Trusted base: CPython 3.12 ast parser, the rule slot tables (confirmed
          "CFG/dominator code. Decides only the named structural clauses (necessary conditions); the runtime behaviour as a whole is not decided.")
 
 CLAIMED = {
+    "C29": {
+        "text": "Decided on every run from source: (T1) no name-keyed lookup compares a str with a builtin list of model objects, and the per-Einsum entry is "
+                "selected by comparing its name with the requested Einsum name; (T2) every caller of get_renames_for_einsum passes the Einsum's own name; "
+                "(T3) defaults are appended only from the entry named default and only when absent, top-level renames never override an Einsum's own; "
+                "(T4) an expected_count mismatch raises. Thorough tier adds a mypy-as-library typed confirmation of T1. Right level: the defect class "
+                "(type-incoherent lookup, literal key) is decidable from types and dataflow, and no test has per-Einsum top-level renames.",
+        "design_ref": "DESIGN.md section 3, C29",
+        "note": _NOTE + " mypy 2.3.1 from the repository's own environment is additionally trusted in the thorough tier.",
+        "technique": "static analysis: annotation/type-directed lookup lint + call-argument dataflow + guard (control-dependence) rules over ast/CFG; mypy-as-library confirmation",
+    },
+    "C32": {
+        "text": "Order typestate (ORDERED / TAGGED / UNORDERED) over accelforge/util/parallel.py decided on every run: every list returned on a non-generator "
+                "path is a comprehension over the job list or a pre-sized list filled by indexed store from an index-tagged stream; the dict path pairs each "
+                "value with its own key end to end; the job list is only rebound order-preservingly. Exhaustive over all return statements of parallel(). "
+                "Right level: positional correctness under arbitrary completion order is a shape property of how results are stored, not of any schedule a test can force.",
+        "design_ref": "DESIGN.md section 3, C32",
+        "note": _NOTE + " joblib is trusted to yield each submitted job's return value exactly once.",
+        "technique": "static analysis: typestate/shape analysis of result streams (ast + CFG control dependence)",
+    },
+    "C20": {
+        "text": "Determinism lint decided on every run: unordered-generator consumers use only order-insensitive sinks; an inter-procedural (locals, returns, "
+                "attributes, callee parameters) flow analysis shows that no builtin set / free_symbols order reaches an order-sensitive sink in "
+                "mapper/model/util/frontend (~200 use sites); nothing is sorted by hash/id/uuid; oset/fzs re-wrap every set-returning method; the disk-cache key "
+                "covers all parameters of the cached function. Right level: schedule/hash-seed dependence is invisible to a suite that runs one schedule "
+                "and one seed, but visible as data flowing from an unordered source to an ordered sink.",
+        "design_ref": "DESIGN.md section 3, C20",
+        "note": _NOTE + " Floating-point non-associativity of commutative accumulation is not modelled.",
+        "technique": "static analysis: source-to-sink dataflow for unordered collections (inter-procedural, ast), typestate of unordered streams, sibling/wrapper coherence checks",
+    },
+    "C26": {
+        "text": "Decided on every run: the instance-count accumulator in Spec.calculate_component_costs is a product containing the component's own fanout and "
+                "every admitted parent's fanout; the parent guard, evaluated over the architecture class hierarchy, rejects Compute and admits every Spatialable "
+                "non-compute class; Fork/Array copy the parent list; totals normalise to per-instance x the same count; architecture totals sum over all "
+                "components of all branches. Right level: which nodes count as ancestors is decided by isinstance guards and list aliasing, both structural.",
+        "design_ref": "DESIGN.md section 3, C26",
+        "note": _NOTE,
+        "technique": "static analysis: factor analysis on a polynomial normal form + guard evaluation over the class hierarchy + aliasing (copy) rule (ast/CFG)",
+    },
     "C27": {
         "text": "Idempotence typestate, decided on every run from /repo's source: each of the four persisted cost quantities that is recomputed "
                 "from its own previous value through scale factors is guarded by an 'already calculated' marker that is tested before and set after the "
